@@ -227,9 +227,30 @@ def reindex_database(
             session.repo.add_file(zorg_page)
             session.commit()
 
+    # Pages that were indexed before but no longer exist on disk (deleted or
+    # renamed) must not leave their notes behind. With explicit paths we only
+    # know about those paths, so this applies to a full reindex only.
+    if not cmd.paths:
+        for zorg_page_name in sorted(
+            old_file_to_hash.keys() - file_to_hash.keys()
+        ):
+            if session.repo.remove_file_by_name(zorg_page_name) is not None:
+                num_of_updates += 1
+                c.zprint(
+                    "REMOVING DELETED FILE",
+                    zorg_page_name,
+                    fg_color=Color.BLACK,
+                    bg_color=Color.YELLOW,
+                )
+                session.commit()
+
     if num_of_updates == 0:
         c.zprint("NO ZORG FILES HAVE BEEN MODIFIED")
 
+    if cmd.paths:
+        # Only the given paths were looked at: keep what we know about the
+        # rest of the index instead of forgetting it.
+        file_to_hash = {**old_file_to_hash, **file_to_hash}
     _write_file_hash_to_disk(file_hash_path, file_to_hash)
     error_file_whitelist.write_text("\n".join(sorted(error_files)))
     session.commit()
